@@ -12,6 +12,11 @@
 #ifndef SINK_EVENTS
 #define SINK_EVENTS 8
 #endif
+/* -DSINK_COPY=<n>: append() also copies the first n bytes at call time (needed when the data is a formatter's stack buffer that is
+ * dead by the time the harness looks at the log; the format-parser checks keep pointers into the still-live format string instead) */
+#ifdef SINK_COPY
+static uint8_t ev_data[SINK_EVENTS][SINK_COPY];
+#endif
 static const uint8_t *ev_ptr[SINK_EVENTS]; static uint64_t ev_size[SINK_EVENTS]; static uint8_t ev_ch[SINK_EVENTS]; static uint8_t ev_is_char[SINK_EVENTS];
 static uint64_t sink_total; static int sink_calls;
 static const uint8_t *sink_src_lo; static uint64_t sink_src_n;   /* when set: every append() must lie inside [lo, lo+n) */
@@ -20,7 +25,12 @@ void SINKFN(vp_sink_append)(uint8_t *data, uint64_t size) {
     ASSERT(VP_SAME_OBJECT(data, sink_src_lo) && VP_POFF(data) >= VP_POFF(sink_src_lo) && (uint64_t)(VP_POFF(data) - VP_POFF(sink_src_lo)) + size <= sink_src_n, "literal text handed to the sink lies inside the format string (before its terminating NUL)");
   }
   ASSERT(sink_calls < SINK_EVENTS, "sink event log large enough (harness bound)");
-  if (sink_calls < SINK_EVENTS) { ev_ptr[sink_calls] = data; ev_size[sink_calls] = size; ev_is_char[sink_calls] = 0; }
+  if (sink_calls < SINK_EVENTS) {
+    ev_ptr[sink_calls] = data; ev_size[sink_calls] = size; ev_is_char[sink_calls] = 0;
+#ifdef SINK_COPY
+    for (uint64_t i = 0; i < SINK_COPY; i++) if (i < size) ev_data[sink_calls][i] = data[i];
+#endif
+  }
   sink_calls++; sink_total += size;
 }
 void SINKFN(vp_sink_append_char)(uint8_t ch, uint64_t count) {
@@ -28,11 +38,16 @@ void SINKFN(vp_sink_append_char)(uint8_t ch, uint64_t count) {
   if (sink_calls < SINK_EVENTS) { ev_ch[sink_calls] = ch; ev_size[sink_calls] = count; ev_is_char[sink_calls] = 1; }
   sink_calls++; sink_total += count;
 }
+#ifdef SINK_COPY
+#define SINK_BYTE(k, i) ((i) < SINK_COPY ? ev_data[k][i] : 0)
+#else
+#define SINK_BYTE(k, i) (ev_ptr[k][i])
+#endif
 /* first `cap` bytes of the output; returns min(total, cap) */
 static uint64_t sink_flatten(uint8_t *out, uint64_t cap) {
   uint64_t p = 0;
   for (int k = 0; k < SINK_EVENTS; k++) if (k < sink_calls) {
-    for (uint64_t i = 0; i < cap; i++) if (i < ev_size[k] && p < cap) { out[p] = ev_is_char[k] ? ev_ch[k] : ev_ptr[k][i]; p++; }
+    for (uint64_t i = 0; i < cap; i++) if (i < ev_size[k] && p < cap) { out[p] = ev_is_char[k] ? ev_ch[k] : SINK_BYTE(k, i); p++; }
   }
   return p;
 }
